@@ -155,6 +155,24 @@ CHECKS["C06"] = dict(
     design="5/C06",
 )
 
+CHECKS["C09"] = dict(
+    text="Proved for EVERY paragraph token stream (any nesting, any number of text nodes, white-space elements, notes, earlier marks), every offset / length / "
+    "position and EVERY matcher (the regex engine is a parameter: any family of spans with start <= end): set_span / set_link by offset and by regex leave the "
+    "readable text and the notes' text unchanged; the wrapped element contains exactly the match (span content through C05's encoder theorem); the offset form "
+    "rewrites exactly the node slice designated and nothing beyond range; the regex form yields the finditer layout of the original text although the code "
+    "rewrites the node from the last match to the first; _insert by position / before= / after= / content= / (from, to) puts the element(s) at the designated "
+    "place of one text node and changes no text; the search picks the position-th (or last) match in document order; a failed insertion changes nothing "
+    "(roll-back theorem); any history of mixed insertions preserves the text (induction); delete and strip keep every character outside the removed tags. "
+    "Correspondence: the same token stream and operation go to odfdo and to the Lean model (python's re supplies the spans), ~8k operations per quick run "
+    "over generated layouts, histories of up to 3 insertions, then every removal; oracle: independent projections over lxml.",
+    note="The regular expression engine (`re`) is a parameter of the model, instantiated by the harness. strip_tags re-appends text through _add_text which "
+    "collapses runs of blanks: the model keeps the characters and the correspondence for the strip operations compares modulo runs of blanks (the oracle "
+    "requires the ODF reading of the paragraph to be unchanged). Known finding C09-F1 (offsets count XML text-node characters, not readable characters) is "
+    "reported at every run; deletion of a reference-mark-start / annotation also deletes its end tag (documented) and is outside the correspondence.",
+    technique="Lean 4 theorems (structural induction over token streams, matcher as a parameter, induction over histories) + differential correspondence + lxml oracle",
+    design="5/C09",
+)
+
 NOT_YET = {}
 
 
